@@ -203,10 +203,13 @@ Definition del_empty_side (h : heap) (sd : side) : heap * side :=
 Fixpoint dedupn (l : list nat) : list nat :=
   match l with [] => [] | x :: t => if memn x t then dedupn t else x :: dedupn t end.
 
-Definition nbhd_cells (h : heap) (c : nat) : list nat :=
-  filter (fun t => negb (Nat.eqb t c)) (dedupn (map snd (k_conns (getc h c)))).
+(* cell.neighborhood (radius 1): the targets of the cell's CURRENT connections - those of the geometry and the hand-made
+   ones (xc = w_xconn: at most one entry per cell and key) - without the cell itself *)
+Definition nbhd_cells (xc : list (nat * Z * nat)) (h : heap) (c : nat) : list nat :=
+  filter (fun t => negb (Nat.eqb t c))
+         (dedupn (map snd (k_conns (getc h c)) ++ map snd (filter (fun e => Nat.eqb (fst (fst e)) c) xc))).
 
-Definition draw_population (h : heap) (sd : side) (kind arg : Z) : option nat :=
+Definition draw_population (xc : list (nat * Z * nat)) (h : heap) (sd : side) (kind arg : Z) : option nat :=
   let cells := s_cells (sd_space sd) in
   let n_empty := length (filter (fun c => Nat.eqb (length (k_agents (getc h c))) O) cells) in
   let at_cell := if arg <? 0 then None else nth_error cells (Z.to_nat arg) in
@@ -216,8 +219,8 @@ Definition draw_population (h : heap) (sd : side) (kind arg : Z) : option nat :=
   else if kind =? 3 then                                                  (* select_random_empty_cell(), _try_random: loops *)
     (if s_grid (sd_space sd) && Nat.eqb n_empty O then None else Some n_empty)
   else if kind =? 4 then Some n_empty                                     (* select_random_empty_cell() via the empties list *)
-  else if kind =? 5 then option_map (fun c => length (nbhd_cells h c)) at_cell           (* cell.neighborhood.select_random_cell() *)
-  else if kind =? 6 then option_map (fun c => length (agents_of h (nbhd_cells h c))) at_cell  (* ....select_random_agent() *)
+  else if kind =? 5 then option_map (fun c => length (nbhd_cells xc h c)) at_cell           (* cell.neighborhood.select_random_cell() *)
+  else if kind =? 6 then option_map (fun c => length (agents_of h (nbhd_cells xc h c))) at_cell  (* ....select_random_agent() *)
   else None.
 
 Definition member_with_label (h : heap) (ms : list nat) (label : Z) : list nat :=
@@ -298,7 +301,7 @@ Definition wstep (w : world) (o : wop) : world * list Z :=
       match side_of w s with
       | None => (w, NOOP)
       | Some sd =>
-          match draw_population (st_heap (w_st w)) sd kind arg with
+          match draw_population (w_xconn w) (st_heap (w_st w)) sd kind arg with
           | None => (w, NOOP)
           | Some O => (w, [-1; E_EMPTY])
           | Some _ => (w, [0; 1])            (* drawn from the side's own generator *)
